@@ -43,7 +43,7 @@ i, k, j = sp.symbols('i k j', integer=True)
 N_DRAWS = 120000
 
 
-def law_obligations(rec, tag, funcs, klass, elem, spec, conds, idx_syms, instance, native_draws, indep_over):
+def law_obligations(rec, tag, funcs, klass, elem, spec, conds, idx_syms, instance, native_draws, indep_over, native_matrix=None):
     """elem: traced sample entry (sympy) ; spec: dict(kind, ...) ; native_draws(env, m) -> m native draws of that entry"""
     def get_law():
         return ghost.law_of(elem)
@@ -135,7 +135,7 @@ def law_obligations(rec, tag, funcs, klass, elem, spec, conds, idx_syms, instanc
     elif spec['kind'] == 'dirac':
         ident('value', lambda l: l['value'], spec['value'])
 
-    def indep():
+    def indep_sym():
         atoms = ghost.random_atoms(elem)
         if spec['kind'] == 'dirac':
             return ('discharged', 'ghost provenance', 'deterministic')
@@ -144,13 +144,45 @@ def law_obligations(rec, tag, funcs, klass, elem, spec, conds, idx_syms, instanc
         for a_ in atoms:
             missing = [s_ for s_ in indep_over if s_ not in a_.free_symbols]
             if missing:
-                return ('undecided', 'ghost provenance', 'atom %s does not depend on entry index %s: entries share noise' % (a_, missing))
+                return ('refuted', 'ghost provenance', 'atom %s does not depend on entry index %s: entries share noise' % (a_, missing))
         streams = {a_.args[0] for a_ in atoms}
         calls = {(a_.args[0], a_.args[1]) for a_ in atoms}
         if len(calls) != len(atoms):
-            return ('undecided', 'ghost provenance', 'two atoms of one entry come from the same draw')
+            return ('refuted', 'ghost provenance', 'two atoms of one entry come from the same draw')
         return ('discharged', 'ghost provenance', 'each entry uses its own atoms %s' % ([str(a_.func) for a_ in atoms],))
+
+    def indep():
+        r = indep_sym()
+        if r[0] != 'refuted':
+            return r
+        wit = joint_witness(native_matrix, rec.seed) if native_matrix is not None else None
+        if wit is None:
+            return ('undecided', r[1], r[2] + ' (not reproduced natively)')
+        return ('refuted', r[1] + '; native statistical replay', r[2] + ' | native: ' + wit['what'], wit)
     rec.run(tag + '/law.indep', funcs, klass, indep)
+
+
+def joint_witness(native_matrix, seed_):
+    """native_matrix(seed) -> 2-d array of identically distributed entries (both axes index sample entries).  Under the documented product law
+    the variance of the slice means along either axis is (entry variance) / (slice length); shared noise along an axis inflates it by the slice length."""
+    try:
+        x = np.asarray(native_matrix(int(seed_) + 11), dtype=float)
+    except Exception as ex:
+        return {'what': 'native sampler raises %r' % (ex,), 'expected': 'samples', 'observed': repr(ex)}
+    if x.ndim != 2 or min(x.shape) < 2 or not np.all(np.isfinite(x)):
+        return None
+    tot = float(np.var(x))
+    if tot == 0:
+        return {'what': 'all %d x %d jointly drawn entries are equal (%r)' % (x.shape + (float(x[0, 0]),)), 'expected': 'independent draws', 'observed': float(x[0, 0])}
+    for ax in (0, 1):
+        means = x.mean(axis=ax)
+        ln = x.shape[ax]
+        ratio = float(np.var(means)) / (tot / ln)
+        tol = 1 + 8 * math.sqrt(2.0 / len(means)) + 0.2
+        if ratio > tol and ln >= 2:
+            return {'what': 'entries that differ only in the %s index share noise: variance of the %d slice means is %.3g times what independent entries give (bound %.2f; %d x %d draws)'
+                    % ({0: 'first', 1: 'second'}[ax], len(means), ratio, tol, x.shape[0], x.shape[1]), 'expected': 'ratio about 1', 'observed': ratio}
+    return None
 
 
 # ---------------------------------------------------------------------------
@@ -191,13 +223,16 @@ def error_model(rec, cls):
     def draws(env, m_):
         out = nat.sample([env[t_] for t_ in th], np.array(env['M']), n_samples=m_, seed=int(rec.seed) + 1)
         return out[int(env[i]), :]
+    def matrix(sd_):
+        out = np.asarray(nat.sample([0.4, 0.3][:cfg['nth']], np.full(300, 1.7), n_samples=300, seed=sd_), dtype=float)
+        return np.log(out) if (cls == 'LogNormalErrorModel' and np.all(out > 0)) else out
     for pn, (c, v) in enumerate(rets):
         tag = '%s[path%d]' % (cls, pn)
         rec.run(tag + '/shape', funcs, 'P∞', lambda v=v: ('discharged', 'structural', '(n_times, n_samples)') if (isinstance(v, T) and v._shape == (n, ns))
                 else ('undecided', 'structural', 'shape %s' % (getattr(v, '_shape', None),)))
         if not isinstance(v, T) or len(v._shape) != 2:
             continue
-        law_obligations(rec, tag, funcs, 'P∞', v.el(i, k), cfg['spec'](M[i], th), req + c + [i >= 0, i < n, k >= 0, k < ns], (i, k), inst, draws, (i, k))
+        law_obligations(rec, tag, funcs, 'P∞', v.el(i, k), cfg['spec'](M[i], th), req + c + [i >= 0, i < n, k >= 0, k < ns], (i, k), inst, draws, (i, k), native_matrix=matrix)
 
 
 # ---------------------------------------------------------------------------
@@ -253,6 +288,17 @@ def pop_model(rec, kind):
         eta = mm.sample(np.array(env['F']), n_samples=m_, seed=int(rec.seed) + 1)
         mm.set_n_ids(m_)
         return mm.compute_individual_parameters(np.array(env['F']), eta)[:, int(env[j])]
+    def matrix(sd_, psi=False):
+        mm = getattr(real, cfg['cls'])(n_dim=3, **cfg['kw'])
+        f = np.array([1.0, 2.0, 1.5, 0.4, 0.7, 0.5])
+        out = np.asarray(mm.sample(f, n_samples=500, seed=sd_), dtype=float)
+        if psi:
+            mm.set_n_ids(500)
+            out = np.asarray(mm.compute_individual_parameters(f, out), dtype=float)
+        if cfg['cls'] == 'LogNormalModel' and np.all(out > 0) and (psi or cfg['eta'] is None):
+            out = np.log(out)
+        sdv = out.std(axis=0)
+        return (out - out.mean(axis=0)) / np.where(sdv > 0, sdv, 1.0)
     for pn, (c, v) in enumerate(rets):
         tag = '%s[path%d]' % (kind, pn)
         rec.run(tag + '/shape', funcs, 'P∞', lambda v=v: ('discharged', 'structural', '(n_samples, n_dim)') if (isinstance(v, T) and v._shape == (ns, d))
@@ -261,15 +307,15 @@ def pop_model(rec, kind):
             continue
         cc = req + c + [k >= 0, k < ns, j >= 0, j < d]
         if cfg['eta'] is not None:
-            law_obligations(rec, tag + '/eta', funcs, 'P∞', v.el(k, j), cfg['eta'], cc, (k, j), inst, draws_eta, (k, j))
+            law_obligations(rec, tag + '/eta', funcs, 'P∞', v.el(k, j), cfg['eta'], cc, (k, j), inst, draws_eta, (k, j), native_matrix=matrix)
             # the model's own transform maps the eta-law to the documented psi-law
             ip = explore(lambda: m.compute_individual_parameters(flat, v), req + c)
             ip_rets = [(c2, r[1]) for c2, r, _ in ip if r[0] == 'ret']
             for p2, (c2, psi) in enumerate(ip_rets):
                 law_obligations(rec, '%s/psi[path%d]' % (tag, p2), funcs + [q + 'compute_individual_parameters'], 'P∞', psi.el(k, j),
-                                cfg['spec'](F[j], F[d + j]), cc + c2, (k, j), inst, draws_psi, (k, j))
+                                cfg['spec'](F[j], F[d + j]), cc + c2, (k, j), inst, draws_psi, (k, j), native_matrix=lambda sd_: matrix(sd_, True))
         else:
-            law_obligations(rec, tag, funcs, 'P∞', v.el(k, j), cfg['spec'](F[j], F[d + j]), cc, (k, j), inst, draws_eta, (k, j))
+            law_obligations(rec, tag, funcs, 'P∞', v.el(k, j), cfg['spec'](F[j], F[d + j]), cc, (k, j), inst, draws_eta, (k, j), native_matrix=matrix)
 
 
 def pooled_hetero(rec):
@@ -531,11 +577,121 @@ def native_composed_sampler_witness(rec, kinds):
     return None
 
 
+# ---------------------------------------------------------------------------
+# covariate population model: sample k is drawn from the sub-population of covariate row k
+# ---------------------------------------------------------------------------
+COVBASE = {
+    'GaussianModel': ('normal', {}),
+    'LogNormalModel': ('lognormal', {}),
+    'GaussianModel(nc)': ('normal', {'centered': False}),
+}
+
+
+def covariate_sampler(rec, base):
+    """real CovariatePopulationModel.sample, executed on symbolic covariate rows (2 covariates, 3 requested samples, and one shared row):
+    entry k must have the base model's law at  vartheta_0 + sum_c beta_c x_kc  and use draws of its own"""
+    import chi as real
+    from contracts import c15, c16
+    chi_sym = loader.load_shadow()
+    kind, kw = COVBASE[base]
+    cls = base.split('(')[0]
+    q = 'chi._population_models.CovariatePopulationModel.'
+    pos = lambda nm: sp.Symbol(nm, positive=True)
+    mu, sg = pos('mu'), pos('sg')
+    b = [[pos('bm0'), pos('bm1')], [pos('bs0'), pos('bs1')]]          # shifts of (location, scale) per covariate
+    X = [[pos('x%d%d' % (r, c_)) for c_ in range(2)] for r in range(3)]
+    par = np.array([S(v) for v in (mu, sg, b[0][0], b[0][1], b[1][0], b[1][1])], dtype=object)
+
+    def want(row):
+        loc = mu + b[0][0] * row[0] + b[0][1] * row[1]
+        sc = sg + b[1][0] * row[0] + b[1][1] * row[1]
+        return (kind, loc, sc)
+
+    def go():
+        n_ok = 0
+        for label, cov, rows, nsmp in (('per-sample rows', [[S(v) for v in r] for r in X], X, 3), ('one shared row', [S(v) for v in X[0]], [X[0]] * 3, 3),
+                                       ('first column shared', [[S(X[0][0]), S(r[1])] for r in X], [[X[0][0], r[1]] for r in X], 3)):
+            m = chi_sym.CovariatePopulationModel(getattr(chi_sym, cls)(**kw), chi_sym.LinearCovariateModel(n_cov=2))
+            ghost.GLOBAL.reset()
+            paths = explore(lambda: m.sample(par, np.array(cov, dtype=object), n_samples=nsmp, seed=S(c16.SEED)), [])
+            if not paths:
+                return ('undecided', 'engine', 'no path')
+            for c, r, _ in paths:
+                if r[0] != 'ret':
+                    return ('refuted', 'symbolic execution', '%s: sampling raises %r%s' % (label, r[1], (' on the path %s' % (c,)) if c else ''))
+                v = r[1]
+                if getattr(v, 'shape', None) != (nsmp, 1):
+                    return ('refuted', 'structural', '%s: sample shape %s, documented (n_samples, n_dim) = %s' % (label, getattr(v, 'shape', None), (nsmp, 1)))
+                if kw:
+                    m.set_n_ids(nsmp) if hasattr(m, 'set_n_ids') else None
+                    ip = explore(lambda: m.compute_individual_parameters(par, v, np.array(cov if np.ndim(cov) == 2 else [cov] * nsmp, dtype=object)), list(c))
+                    if [r2[0] for _, r2, _ in ip] != ['ret']:
+                        return ('undecided', 'engine', '%s: transform paths %s' % (label, [(r2[0], str(r2[1])[:80]) for _, r2, _ in ip]))
+                    v = ip[0][1][1]
+                for k_ in range(nsmp):
+                    e = sym.w(v[k_, 0])
+                    if e.has(sym.UNINIT):
+                        return ('refuted', 'symbolic execution', '%s: sample %d is uninitialised memory' % (label, k_))
+                    try:
+                        msg = c15.law_matches(e, want(rows[k_]), list(c))
+                    except Unsupported as ex:
+                        msg = 'no recognised law (%s)' % (ex,)
+                    if msg:
+                        return ('refuted', 'law algebra', '%s%s: sample %d (covariates %s) has %s' % (label, (' [path %s]' % (c,)) if c else '', k_, rows[k_], msg))
+                fail = c16.provenance(v)
+                if fail:
+                    return ('refuted', 'ghost provenance', '%s: %s' % (label, fail[1]))
+                n_ok += 1
+        return ('discharged', 'ghost RNG law algebra + sigma-normal-form', '%d paths: every requested sample has the base law at its own covariate row, independent draws' % n_ok)
+
+    def backed():
+        r = go()
+        if r[0] != 'refuted':
+            return r
+        wit = native_covariate_sampler(rec.seed)
+        if wit is None:
+            return ('undecided', r[1], r[2] + ' (not reproduced natively)')
+        return ('refuted', r[1] + '; native replay', r[2] + ' | native: ' + wit['what'], wit)
+    rec.run('Covariate[%s]/law.rows' % base, [q + 'sample', 'chi._covariate_models.LinearCovariateModel.compute_population_parameters'], 'Pκ', backed)
+
+
+def native_covariate_sampler(seed_):
+    """tight sub-populations (sigma 0.01) whose location is the second covariate: a sample identifies the covariate row it was drawn for"""
+    import chi as real
+    cases = [('first covariate shared, second varies', [[1.0, 30.0], [1.0, 10.0], [1.0, 20.0], [1.0, 10.0]]),
+             ('distinct rows, not ascending', [[3.0, 30.0], [1.0, 10.0], [2.0, 20.0], [1.0, 10.0], [0.5, 40.0]]),
+             ('one shared row', [2.0, 25.0])]
+    for cls, kw in (('GaussianModel', {}), ('LogNormalModel', {}), ('GaussianModel', {'centered': False})):
+        for label, cov in cases:
+            m = real.CovariatePopulationModel(getattr(real, cls)(**kw), real.LinearCovariateModel(n_cov=2))
+            par = np.array([0.0, 0.01, 0.0, 0.1, 0.0, 0.0])
+            rows = cov if np.ndim(cov) == 2 else [cov] * 4
+            try:
+                smp = np.asarray(m.sample(par, np.array(cov), n_samples=len(rows), seed=int(seed_) + 2), dtype=float)
+                if kw:
+                    m.set_n_ids(len(rows))
+                    smp = np.asarray(m.compute_individual_parameters(par, smp, np.array(rows)), dtype=float)
+            except Exception as ex:
+                return {'what': '%s(%s), %s: sampling raises %r' % (cls, kw, label, ex), 'expected': 'samples', 'observed': repr(ex)}
+            if smp.shape != (len(rows), 1):
+                return {'what': '%s, %s: shape %s' % (cls, label, smp.shape), 'expected': [len(rows), 1], 'observed': list(smp.shape)}
+            val = np.log(smp[:, 0]) if cls == 'LogNormalModel' and np.all(smp > 0) else smp[:, 0]
+            for k_, row in enumerate(rows):
+                loc = 0.1 * row[1]
+                if not abs(val[k_] - loc) < 0.08:
+                    return {'what': '%s(%s), %s: sample %d was requested for covariates %s (documented location %.3g, scale 0.01), drawn value %.4g' % (cls, kw, label, k_, row, loc, val[k_]),
+                            'covariates': cov, 'expected': loc, 'observed': float(val[k_])}
+            if len(set(np.round(val - np.array([0.1 * r_[1] for r_ in rows]), 12))) < len(rows):
+                return {'what': '%s(%s), %s: two samples carry the same noise' % (cls, kw, label), 'expected': 'independent draws', 'observed': val.tolist()}
+    return None
+
+
 def tasks():
     import itertools
     out = [(cls, (lambda rec, cls=cls: error_model(rec, cls))) for cls in ERR]
     out += [(kd, (lambda rec, kd=kd: pop_model(rec, kd))) for kd in POP]
     out += [('pooled-hetero', pooled_hetero), ('moments', moments)]
+    out += [('covariate-sampler:' + b_, (lambda rec, b_=b_: covariate_sampler(rec, b_))) for b_ in COVBASE]
     kinds_all = ('regular', 'pooled', 'hetero', 'cov')
     for K in (1, 2, 3):
         for kinds in itertools.product(kinds_all, repeat=K):
